@@ -70,7 +70,7 @@ def ic(v, ty="size_t"):
     return "std::integral_constant<%s, %d%s>" % (ty, v, "ull" if ty == "size_t" else "")
 
 
-def make_slice(rng, kind, E, T, t, boundary, Sk=1):
+def make_slice(rng, kind, E, T, t, boundary, Sk=1, rich=False):
     """a valid slice of the given kind over a dimension of extent E (index type name T, code t)"""
     M = imax(t)
     if kind in ("I", "IC"):
@@ -97,6 +97,12 @@ def make_slice(rng, kind, E, T, t, boundary, Sk=1):
         return Sl("F", "", [])
     # strided_slice{offset, extent, stride}
     mask = rng.randrange(8)
+    if rich and E >= 4:
+        # several selected elements with a non-unit stride smaller than the extent
+        o = rng.randrange(0, 2); x = rng.randrange(3, E - o + 1); sv = rng.choice([2, 2, 3]) if x > 3 else 2
+        def comp_(bit, v):
+            return ic(v, rng.choice(["size_t", "int"])) if mask & bit else T
+        return Sl("S", "%s, %s, %s" % (comp_(1, o), comp_(2, x), comp_(4, sv)), [o, x, sv], mask=mask)
     if boundary and rng.random() < 0.4:
         o, x = E, 0                                 # empty strided slice at the end
     else:
@@ -131,8 +137,20 @@ def gen(rng, tier, props=("C04",)):
     maxR = 3 if tier == "quick" else 4
     maxlev = 2 if tier == "quick" else 3
     tries = 0
+    # structured stream: every ordered pair of slice kinds (earlier dimension, later dimension), each layout
+    pair_queue = []
+    for lay_ in (0, 1, 2):
+        for k1 in KINDS:
+            for k2 in KINDS:
+                pair_queue.append((lay_, [k1, k2]))
+                if tier != "quick" or rng.random() < 0.35:
+                    pair_queue.append((lay_, [k1, rng.choice(KINDS), k2] if rng.random() < 0.5 else [rng.choice(KINDS), k1, k2]))
+    rng.shuffle(pair_queue)
+    if tier == "quick":
+        nprog = max(nprog, len(pair_queue) + 120)
     while len(progs) < nprog and tries < nprog * 40:
         tries += 1
+        forced = pair_queue.pop() if pair_queue else None
         t = rng.randrange(8)
         T = CTYPES[t]
         M = imax(t)
@@ -140,10 +158,15 @@ def gen(rng, tier, props=("C04",)):
         R = rng.choice([1, 2, 2, 3, 3] + ([4] if maxR >= 4 else []))
         boundary = rng.random() < 0.35
         big = rng.random() < 0.12
+        if forced is not None:
+            lay, fk = forced
+            R = len(fk); boundary = False; big = False
         if big:
             # shapes near the representability boundary: one long dimension
             Mb = min(M, 1 << 40)                  # element addresses must stay representable as pointer differences
             es = [1] * R; es[rng.randrange(R)] = rng.choice([Mb, Mb // 2, Mb - 1])
+        elif forced is not None:
+            es = rng.sample([4, 5, 6, 7], R) if M >= 7 ** R else [4, 5, 6][:R]     # distinct extents: a shifted stride factor is visible
         else:
             es = [rng.choice([0, 1, 2, 3, 4, 5]) if rng.random() < 0.9 else rng.choice([7, 11]) for _ in range(R)]
         if prod1(es) > M:
@@ -159,6 +182,8 @@ def gen(rng, tier, props=("C04",)):
         if not src.valid_for(t):
             continue
         nlev = rng.choice([1, 1, 1, 2] + ([3] if maxlev >= 3 else []))
+        if forced is not None:
+            nlev = 1
         cur_es, cur_st = list(es), list(src.strides)
         levels, ok = [], True
         for lv in range(nlev):
@@ -172,7 +197,10 @@ def gen(rng, tier, props=("C04",)):
                     kinds = ["F", "F", "P", "I"]          # aim at the layout-preserving shapes
                 sl = None
                 for _ in range(6):
-                    sl = make_slice(rng, rng.choice(kinds), cur_es[k], T, t, boundary, cur_st[k])
+                    if forced is not None and lv == 0:
+                        sl = make_slice(rng, fk[k], cur_es[k], T, t, False, cur_st[k], rich=True)
+                    else:
+                        sl = make_slice(rng, rng.choice(kinds), cur_es[k], T, t, boundary, cur_st[k])
                     if sl is not None:
                         break
                 if sl is None:
@@ -221,6 +249,8 @@ def gen(rng, tier, props=("C04",)):
         hist["levels=%d" % len(levels)] += 1
         hist["rank=%d" % R] += 1
         hist["type=%s" % ITYS[t]] += 1
+        if forced is not None:
+            hist["kind-pair stream"] += 1
         if boundary:
             hist["boundary"] += 1
         if big:
